@@ -18,7 +18,9 @@ RULE = ('Literal-only arithmetic trees (13 binary operators incl. /, ** and @, u
         'Oracle (independent, inside the interpreter under test): each maximal literal-only expression is located by AST path in input and output and '
         'evaluated with empty builtins; outcome must agree in exception class or type(value)+repr(value); every BinOp whose own evaluation raises or is '
         'NaN must still be that BinOp; len(output with folding) <= len(output without). Non-trivial: a fold happened or a raising/NaN expression was '
-        'left alone. Distinct = sha256(source, option set, interpreter).')
+        'left alone. Distinct = sha256(source, option set, interpreter). A second family runs modules that capture the value of E where it is evaluated '
+        '(defaults of nested defs/lambdas/methods, decorator arguments, class bodies, comprehensions, generators, f-strings ...; E often repeated and bool-valued so that '
+        'hoisting and renaming also handle the folded node) and compares type+repr of every captured value and the ending before/after minification with all safe options.')
 ASSUMPTIONS = ['exponents |e| <= 64, shifts <= 4096, sequence repeats bounded (resource bound)', 'evaluation with empty builtins in the same interpreter that ran the minifier']
 
 FOLD_ONLY = dict(api.ALL_OFF, constant_folding=True)
@@ -37,7 +39,28 @@ def oracle(case):
     return None
 
 
+def oracle_exec(case):
+    """Execution in context: the values captured where E is evaluated must be the same before and after minification."""
+    from ..oracle import observe
+    src = case['source']
+    a = observe.observe(src)
+    if a is None:
+        return None
+    try:
+        out = api.minify(src, case['opts'])
+    except BaseException as e:
+        return ('raises', type(e).__name__, api.innermost_frame(e)), str(e)[:200]
+    b = observe.observe(out)
+    if b is None:
+        b = observe.observe(out, timeout=10.0)
+    if b is None or a[:2] != b[:2]:
+        return ('value-in-context-differs',), {'original': a[0][-600:] + ' / ' + a[1], 'minified': (b[0][-600:] + ' / ' + b[1]) if b else 'no termination', 'out': out[:1500]}
+    return None
+
+
 def replay(case):
+    if case.get('exec'):
+        return oracle_exec(case)
     if case.get('interp'):
         return fleet.replay_on(case['interp'], {'op': 'fold', 'src': case['source'], 'opts': case['opts']})
     return oracle(case)
@@ -60,6 +83,26 @@ def shard(ctx):
             ctx.fail(c, tuple(r['signature']), r['observed'])
 
     hyp_run(ctx, 'host', st.tuples(foldexprs.fold_modules(), st.booleans()), prop, ctx.n(16000, 600000))
+
+    # execution in context, with every safe option on (hoisting and renaming see the folded node as well)
+    EXEC_OPTS = [dict(api.DEFAULTS), dict(api.ALL_OFF, constant_folding=True, hoist_literals=True), dict(api.ALL_OFF, constant_folding=True, hoist_literals=True, rename_locals=True),
+                 dict(api.DEFAULTS, rename_globals=True)]
+
+    def prop_x(case):
+        (src, kinds), oi = case
+        opts = EXEC_OPTS[oi]
+        c = {'source': src, 'opts': opts, 'exec': True}
+        r = oracle_exec(c)
+        try:
+            changed = api.minify(src, opts) != api.minify(src, dict(opts, constant_folding=False))
+        except BaseException:
+            changed = False
+        ctx.case(sha('exec', src, oi), bool(changed), classes=['exec-in-context'] + ['exec:' + k for k in set(kinds)],
+                 sample={'source': src[:400], 'contexts': kinds} if ctx.index == 0 else None)
+        if r is not None:
+            ctx.fail(c, r[0], r[1])
+
+    hyp_run(ctx, 'exec', st.tuples(foldexprs.runnable_fold_modules(), st.integers(0, len(EXEC_OPTS) - 1)), prop_x, ctx.n(3000, 120000))
 
     # other interpreters
     versions = ['2.7'] + fleet.PY3_OTHERS
